@@ -173,6 +173,10 @@ pub struct LazyPlan {
     /// what `to_jar_entry_enum` says, not what its name looks like (an implementation that classifies by content)
     #[serde(default)]
     pub odd_names: bool,
+    /// every `open()` numbers the entries differently (entry keys are only good for the opened jar they came from: a
+    /// jar backed by a directory listing or a hash map) - missed seeded change C13-17: keys of one opening used on another
+    #[serde(default)]
+    pub renumber: bool,
 }
 
 impl LazyPlan {
@@ -185,7 +189,7 @@ impl LazyPlan {
         if read_fault.is_some() && z.chance(60) {
             fail_at.clear();
         }
-        LazyPlan { fail_at, sticky: z.chance(30), io: if z.chance(50) { IoPlan::gen_legal(z) } else { IoPlan::plain() }, read_fault, names_order: if z.chance(35) { z.next() | 1 } else { 0 }, odd_names: false }
+        LazyPlan { fail_at, sticky: z.chance(30), io: if z.chance(50) { IoPlan::gen_legal(z) } else { IoPlan::plain() }, read_fault, names_order: if z.chance(35) { z.next() | 1 } else { 0 }, odd_names: false, renumber: false }
     }
     pub fn faults(&self) -> usize {
         self.fail_at.len() + self.read_fault.is_some() as usize
@@ -204,6 +208,9 @@ impl LazyPlan {
         if self.odd_names {
             c.push(LazyPlan { odd_names: false, ..self.clone() });
         }
+        if self.renumber {
+            c.push(LazyPlan { renumber: false, ..self.clone() });
+        }
         if self.names_order != 0 {
             c.push(LazyPlan { names_order: 0, ..self.clone() });
         }
@@ -220,6 +227,7 @@ pub struct LazyState {
     pub ops: u32,
     pub failed: u32,
     pub read_faults: u32,
+    pub opens: u32,
     pub log: Digest,
     pub stats: Vec<IoStats>,
 }
@@ -282,10 +290,13 @@ impl LazyJar {
         if self.plan.odd_names {
             st.probe("lazyjar.class_entries_under_other_names");
         }
+        if self.plan.renumber {
+            st.probe("lazyjar.entries_renumbered_per_open");
+        }
     }
 }
 
-pub struct LazyOpened<'a>(&'a LazyJar);
+pub struct LazyOpened<'a>(&'a LazyJar, Vec<usize>);
 pub struct LazyEntry<'a>(&'a LazyJar, usize);
 pub struct LazyClass<'a>(&'a LazyJar, &'a [u8]);
 
@@ -293,7 +304,16 @@ impl Jar for LazyJar {
     type Opened<'a> = LazyOpened<'a> where Self: 'a;
     fn open(&self) -> Result<Self::Opened<'_>> {
         self.tick(1)?;
-        Ok(LazyOpened(self))
+        let mut perm: Vec<usize> = (0..self.entries.len()).collect();
+        if self.plan.renumber {
+            let opens = {
+                let mut s = self.state.lock().unwrap_or_else(|e| e.into_inner());
+                s.opens += 1;
+                s.opens
+            };
+            crate::rng::Rng::new(0x6e756d ^ self.plan.names_order ^ (opens as u64).wrapping_mul(0x9E37_79B9_7F4A_7C15)).shuffle(&mut perm);
+        }
+        Ok(LazyOpened(self, perm))
     }
     fn put_to_file<'a>(&'a self, _suggested: &'a Path) -> Result<&'a Path> {
         Err(anyhow!("LazyJar is not stored to files"))
@@ -311,14 +331,14 @@ impl<'j> dukebox::storage::OpenedJar for LazyOpened<'j> {
         if key >= self.0.entries.len() {
             return Err(anyhow!("no entry for index {key}"));
         }
-        Ok(LazyEntry(self.0, key))
+        Ok(LazyEntry(self.0, self.1[key]))
     }
     fn names(&self) -> impl Iterator<Item = (usize, &'_ str)> {
         let mut idx: Vec<usize> = (0..self.0.entries.len()).collect();
         if self.0.plan.names_order != 0 {
             crate::rng::Rng::new(self.0.plan.names_order).shuffle(&mut idx);
         }
-        idx.into_iter().map(|i| (i, self.0.shown[i].as_str()))
+        idx.into_iter().map(|k| (k, self.0.shown[self.1[k]].as_str()))
     }
     fn by_name(&mut self, name: &str) -> Result<Option<Self::Entry<'_>>> {
         self.0.tick(3)?;
